@@ -63,6 +63,7 @@ const (
 	fMapLen    = -13
 	fGhostMisc = -20
 	fGhostSeq  = -21
+	fGhostCap  = -22
 )
 
 const maxLen = 1 << 48
@@ -324,6 +325,12 @@ func (u *Unit) store(st *State, a *Term, t types.Type, v Val) {
 		sv := v.(*StructV)
 		for i := 0; i < ut.NumFields(); i++ {
 			u.store(st, c.Fld(a, u.E.fieldID(ut, i)), ut.Field(i).Type(), sv.F[i])
+		}
+		if types.TypeString(t, nil) == "bytes.Buffer" {
+			// the ghost model of a bytes.Buffer follows a whole-value store (only the zero value is ever stored)
+			base := c.Fld(a, fGhostOut)
+			u.writeCell(st, "bv64", c.Fld(base, fGhostLen), c.BVu(0, 64))
+			u.writeCell(st, "bv64", c.Fld(a, fGhostCap), c.BVu(0, 64))
 		}
 		return
 	case *types.Interface:
